@@ -103,10 +103,11 @@ def check(ctx, prog, scope, floor=1):
             ctx.ob(R, "%s is branch-free and has its reviewed value" % f.short, False, "no longer branch-free", f.loc())
             continue
         got = summary(f)
-        ok = got == want
+        # values are def-use expressions, so the ORDER of independent effects carries no information: compare as multisets
+        ok = sorted(got) == sorted(want)
         why = "%d effect line(s)" % len(got)
         if not ok:
-            for k, (a, b) in enumerate(zip(got, want)):
+            for k, (a, b) in enumerate(zip(sorted(got), sorted(want))):
                 if a != b:
                     why = "line %d: `%s` (reviewed: `%s`)" % (k, a[:140], b[:140])
                     break
